@@ -11,6 +11,7 @@ import (
 	"math/rand"
 	"testing"
 	"time"
+	"unsafe"
 
 	"github.com/bluenviron/mediamtx/internal/zzsim/simrt"
 )
@@ -24,6 +25,8 @@ type s1Op struct {
 	Steady bool `json:"steady"`
 	// frame timestamp increment in clock-rate ticks (can be 0 or negative)
 	PTSDelta int64 `json:"pts_delta"`
+	// the part of WallNs that also passes on the monotonic clock (a jump of the wall clock does not)
+	MonoNs int64 `json:"mono_ns"`
 }
 
 type s1Body struct {
@@ -31,6 +34,8 @@ type s1Body struct {
 	StartPTS  int64  `json:"start_pts"`
 	Ops       []s1Op `json:"ops"`
 	Jumps     int    `json:"jumps"`
+	// the clock readings carry a monotonic part, like those of time.Now
+	Mono bool `json:"mono"`
 }
 
 type s1World struct{}
@@ -56,6 +61,7 @@ func (w *s1World) Gen(rng *rand.Rand, property, tier string) (any, simrt.Sched) 
 		if rng.Intn(4) == 0 {
 			op.WallNs += int64(rng.Intn(2_000_000)) // scheduling jitter, up to 2 ms
 		}
+		op.MonoNs = op.WallNs
 		switch {
 		case rng.Float64() < jumpP:
 			// the wall clock jumps
@@ -73,6 +79,7 @@ func (w *s1World) Gen(rng *rand.Rand, property, tier string) (any, simrt.Sched) 
 		}
 		b.Ops = append(b.Ops, op)
 	}
+	b.Mono = rng.Intn(2) == 0 // drawn last: the operations above are those of earlier versions
 	sched := simrt.DefaultSched(rng)
 	sched.StallProb = 0
 	return b, sched
@@ -89,6 +96,9 @@ func (w *s1World) Run(t *testing.T, sc *simrt.Scenario, cfg simrt.Config) simrt.
 	if err := json.Unmarshal(sc.Body, &b); err != nil {
 		return simrt.Outcome{Violations: []simrt.Violation{{Property: "!", Clause: "bad-scenario", Detail: err.Error()}}}
 	}
+	if b.Mono && !s1MonoWorks() {
+		return simrt.Outcome{Violations: []simrt.Violation{{Property: "!", Clause: "mono-layout", Detail: "the layout of time.Time is not the one s1WithMono assumes"}}}
+	}
 	var vs []simrt.Violation
 	add := func(clause, format string, args ...any) {
 		if len(vs) < 10 {
@@ -99,7 +109,14 @@ func (w *s1World) Run(t *testing.T, sc *simrt.Scenario, cfg simrt.Config) simrt.
 	res := simrt.Run(t, cfg, func() {
 		wall := time.Date(2024, 3, 1, 12, 0, 0, 0, time.UTC)
 		old := timeNow
-		timeNow = func() time.Time { return wall }
+		mono := int64(1_000_000_000)
+		withMono := b.Mono && s1MonoWorks()
+		timeNow = func() time.Time {
+			if withMono {
+				return s1WithMono(wall, mono)
+			}
+			return wall
+		}
 		defer func() { timeNow = old }()
 		e := &Estimator{ClockRate: b.ClockRate}
 		pts := b.StartPTS
@@ -108,8 +125,9 @@ func (w *s1World) Run(t *testing.T, sc *simrt.Scenario, cfg simrt.Config) simrt.
 		have := false
 		for i, op := range b.Ops {
 			wall = wall.Add(time.Duration(op.WallNs))
+			mono += op.MonoNs
 			pts += op.PTSDelta // wraps like the int64 of the implementation
-			r := e.Estimate(pts)
+			r := e.Estimate(pts).Round(0) // the oracle reads the wall clock only
 			if r.After(wall) {
 				add("in-the-future", "call %d: estimate %s is later than the wall clock %s", i, r.Format(time.RFC3339Nano), wall.Format(time.RFC3339Nano))
 			}
@@ -142,6 +160,36 @@ func (w *s1World) Run(t *testing.T, sc *simrt.Scenario, cfg simrt.Config) simrt.
 	out.Abstract = []string{fmt.Sprintf("rate%d jumps%d rr%d", b.ClockRate, s1Bucket(b.Jumps), s1Bucket(rereferences)), fmt.Sprintf("%d-%d-%d", sc.GenSeed, b.Jumps, rereferences)}
 	return out
 }
+
+// s1WithMono builds the reading time.Now would return at wall instant w when the monotonic
+// clock of the process shows mono: a step of the system clock moves the first and not the
+// second, and time.Time compares two such readings by the second. There is no exported
+// constructor; the layout of time.Time (wall, ext, loc) is checked by s1MonoWorks and the
+// plain reading is used if it ever changes.
+func s1WithMono(w time.Time, mono int64) time.Time {
+	const wallToInternal = (1884*365 + 1884/4 - 1884/100 + 1884/400) * 86400
+	const unixToInternal = (1969*365 + 1969/4 - 1969/100 + 1969/400) * 86400
+	sec := w.Unix() + unixToInternal - wallToInternal
+	raw := struct {
+		wall uint64
+		ext  int64
+		loc  *time.Location
+	}{wall: 1<<63 | uint64(sec)<<30 | uint64(w.Nanosecond()), ext: mono}
+	return *(*time.Time)(unsafe.Pointer(&raw))
+}
+
+var s1MonoOK = func() bool {
+	if unsafe.Sizeof(time.Time{}) != 2*8+unsafe.Sizeof(uintptr(0)) {
+		return false
+	}
+	w := time.Date(2024, 3, 1, 12, 0, 0, 123456789, time.UTC)
+	t1 := s1WithMono(w, 100)
+	t2 := s1WithMono(w.Add(10*time.Second), 50)
+	return t1.Round(0).Equal(w) && t2.Round(0).Equal(w.Add(10*time.Second)) && t1.After(t2) && t2.Round(0).After(t1.Round(0)) &&
+		t2.Sub(t1) == -50 && t1.Add(time.Second).Round(0).Equal(w.Add(time.Second))
+}()
+
+func s1MonoWorks() bool { return s1MonoOK }
 
 func s1Bucket(n int) int {
 	switch {
